@@ -38,11 +38,13 @@ def _is_tensor_style(c: ast.Call) -> bool:
 def run(prog: Program, rep: Report, tier: str) -> None:
     rep.rule('C11-D1', 'assert / __debug__ purity: the test (and message) of every assert has no effect (no :=, no mutator or in-place call); an `if __debug__:` block only raises / warns and binds no name that is read after the block, so python -O/-OO (as used by bin/sum_product.py) computes the same values')
     rep.rule('C11-D2', 'option plumbing: bin/sum_product.py forwards every solver option it parses to sum_products; SumProduct.forward and backward read j_precompute with the same default and pick the Jacobian construction by it; opts reach the per-SCC call unchanged except for the method downgrade (C02-D2)')
+    rep.rule('C11-D4', 'zip alignment in the solvers: the operands of every zip(...) in sum_product.py / viterbi.py / multi.py whose lengths can be traced are cut from the same selection (never a filtered list against the unfiltered sequence it was taken from)')
     rep.rule('C11-D3', 'multiplier at most once: a value returned by a function that applies the domain-size multiplier never flows into another application of it (through a further call of such a function, or as two operands of one einsum whose result is multiplied/escapes)')
     rep.not_decided += ['numeric agreement across methods, dtypes and semirings', 'Log = log(Real), Bool = support(Real), Viterbi <= Log']
     purity(rep, prog)
     plumbing(rep, prog)
     compounding(rep, prog)
+    zip_alignment(rep, prog)
 
 
 def effectful_call(prog: Program, eng, e: ast.AST) -> Optional[str]:
@@ -194,6 +196,18 @@ def plumbing(rep: Report, prog: Program) -> None:
     keys = {n.targets[0].slice.value for n in stores if isinstance(n.targets[0].slice, ast.Constant)}
     use = [n for n in own_nodes(sp.node) if isinstance(n, ast.Call) and callee_last(n) == 'apply_to_patterned_tensors' and len(n.args) > 1 and norm(n.args[1]) in (cname, kw)]
     rep.ob(rule, sp.fq(), 'per-SCC options = copy of opts with only `method` rewritten', sp.loc(), bool(cp) and keys <= {'method'} and bool(use), f"keys rewritten per SCC: {sorted(keys)}")
+
+
+def zip_alignment(rep: Report, prog: Program) -> None:
+    """The Jacobians pair each rule with the value computed for it (J_log: zip(rules, tau_rules_stacked)); rules without a value
+    are dropped first, so both operands must come from the same selection."""
+    from ..rules.lengths import check_zip_alignment
+    n = 0
+    for mod in (SP, 'fggs.viterbi', 'fggs.multi'):
+        for f in prog.module(mod).functions.values():
+            if not f.is_lambda:
+                n += check_zip_alignment(rep, 'C11-D4 zip-alignment', f)
+    rep.floor('C11-D4', n, 4)
 
 
 def multiplied_functions(prog: Program) -> Set[str]:
